@@ -33,6 +33,9 @@ pub struct GCase {
     /// (interposer), the files themselves stay readable
     #[serde(default)]
     pub noatime_eperm: bool,
+    /// every read() of a tree file returns at most about 3-5 KB (legal short reads before EOF)
+    #[serde(default)]
+    pub short_reads: bool,
     /// the second root lives on another file system (ext4 below /var/tmp while the rest of the tree is
     /// on tmpfs): devices of different kinds in one run; never together with a pinned disk kind
     #[serde(default)]
@@ -85,9 +88,9 @@ pub fn case_strategy(which: Which) -> BoxedStrategy<GCase> {
                 prop::bool::weighted(0.3),
                 prop::bool::weighted(0.2),
                 prop::bool::weighted(0.1),
-                (prop::bool::weighted(0.1), prop::bool::weighted(0.15)),
+                (prop::bool::weighted(0.1), prop::bool::weighted(0.15), prop::bool::weighted(0.12)),
             )
-                .prop_map(move |(tree, mut opts, extra, ext4, text, stdin, twin_fs, (noatime_eperm, split_fs))| {
+                .prop_map(move |(tree, mut opts, extra, ext4, text, stdin, twin_fs, (noatime_eperm, split_fs, short_reads))| {
                     let split_fs = split_fs && roots >= 2 && !ext4;
                     if split_fs {
                         opts.disk = 0; // the detected kinds must differ between the two file systems
@@ -99,7 +102,7 @@ pub fn case_strategy(which: Which) -> BoxedStrategy<GCase> {
                     if opts.match_links && opts.symbolic_links {
                         // documented-dangerous combination, still legal for group: keep
                     }
-                    GCase { tree, roots, extra_roots: extra.unwrap_or_default(), opts, ext4, text, stdin, twin_fs, noatime_eperm, split_fs }
+                    GCase { tree, roots, extra_roots: extra.unwrap_or_default(), opts, ext4, text, stdin, twin_fs, noatime_eperm, split_fs, short_reads }
                 })
         })
         .boxed()
@@ -209,11 +212,17 @@ pub fn run_case(which: Which, c: &GCase, n: u64) -> Verdict {
         }
     }
     let _rm_other = RmOnDrop(other_fs_dir.clone());
-    let envs: Vec<(String, String)> = if c.noatime_eperm && std::path::Path::new(SHIM).exists() {
-        vec![("LD_PRELOAD".into(), SHIM.into()), ("FCV_ROOT".into(), format!("{}:/var/tmp/fcvw", cd.tree().display())), ("FCV_NOATIME_EPERM".into(), "1".into())]
-    } else {
-        vec![]
-    };
+    let mut envs: Vec<(String, String)> = vec![];
+    if (c.noatime_eperm || c.short_reads) && std::path::Path::new(SHIM).exists() {
+        envs.push(("LD_PRELOAD".into(), SHIM.into()));
+        envs.push(("FCV_ROOT".into(), format!("{}:/var/tmp/fcvw", cd.tree().display())));
+        if c.noatime_eperm {
+            envs.push(("FCV_NOATIME_EPERM".into(), "1".into()));
+        }
+        if c.short_reads {
+            envs.push(("FCV_SHORT_READ".into(), "3000".into()));
+        }
+    }
     let group = |cd: &CaseDir| run_group_env(cd, &c.opts, &roots, fmt, &[], c.stdin, &envs);
     let mut run = group(&cd);
     let mut runs = 1;
@@ -356,8 +365,11 @@ pub fn run_case(which: Which, c: &GCase, n: u64) -> Verdict {
             if other_fs_dir.is_some() {
                 classes.push("roots-on-two-file-systems-of-different-kind".into());
             }
-            if !envs.is_empty() {
+            if c.noatime_eperm && !envs.is_empty() {
                 classes.push("o-noatime-refused".into());
+            }
+            if c.short_reads && !envs.is_empty() {
+                classes.push("short-reads".into());
             }
             Verdict::Pass { nontrivial: near && any_multi_inode_group, classes }
         }
@@ -427,8 +439,11 @@ pub fn run_case(which: Which, c: &GCase, n: u64) -> Verdict {
             if other_fs_dir.is_some() {
                 classes.push("roots-on-two-file-systems-of-different-kind".into());
             }
-            if !envs.is_empty() {
+            if c.noatime_eperm && !envs.is_empty() {
                 classes.push("o-noatime-refused".into());
+            }
+            if c.short_reads && !envs.is_empty() {
+                classes.push("short-reads".into());
             }
             Verdict::Pass { nontrivial, classes }
         }
